@@ -12,7 +12,7 @@ import (
 func init() {
 	register(&Check{
 		ID: "C17", Title: "Block allocator: no double allocation, disjoint blocks, recoverable state",
-		Pkgs:      []string{"container/bytes"},
+		Pkgs:      []string{"container/bytes", "files"},
 		Run:       runC17,
 		Technique: "static analysis: sentinel result-use rule, must-pass-through path queries, must-lockset dataflow, atomic-only census and sibling agreement on go/ssa of container/bytes/blocks.go",
 		Explanation: "R1: the sentinel (-1) of the geometry function GetBlocksInSegment is tested at every call site on an edge that dominates every arithmetic use of the result. " +
@@ -26,7 +26,59 @@ func init() {
 	})
 }
 
+// openNeverShrinks (C17.R10): opening a memory-mapped file never makes the file shorter. NewMMFile may extend a file
+// that is shorter than the region it maps; every Truncate on its path (in the function or in the private functions of
+// the package it runs) sits behind a test that the file's size is below the new size. An unconditional Truncate cuts a
+// storage that is opened with a smaller region: the headers and data of the later segments are gone, reopening the
+// "same bytes" shows their blocks as free.
+func (c *Ctx) openNeverShrinks(rule string) {
+	open := c.P.Func("files", "NewMMFile")
+	if open == nil || len(open.Blocks) == 0 {
+		c.Decide(rule, nil, "open never shrinks the file", nil, false, "files.NewMMFile not found")
+		return
+	}
+	c.Saw(open)
+	guardAt := func(b *ssa.BasicBlock) bool {
+		return hasFactCmp(b, func(cm ir.Cmp) bool {
+			isSize := func(v ssa.Value) bool {
+				call, ok := ir.Resolve(v).(*ssa.Call)
+				return ok && call.Call.IsInvoke() && call.Call.Method.Name() == "Size"
+			}
+			return (cm.Op == token.LSS && isSize(cm.X)) || (cm.Op == token.GTR && isSize(cm.Y))
+		})
+	}
+	n := 0
+	seen := map[*ssa.Function]bool{}
+	var visit func(fn *ssa.Function, guarded bool, depth int)
+	visit = func(fn *ssa.Function, guarded bool, depth int) {
+		if depth > 3 || seen[fn] {
+			return
+		}
+		seen[fn] = true
+		ir.Instrs(fn, func(in ssa.Instruction) {
+			call, ok := in.(*ssa.Call)
+			if !ok {
+				return
+			}
+			if ir.CalleeFullName(call) == "(*os.File).Truncate" {
+				n++
+				c.Decide(rule, fn, "Truncate on the open path only extends", in, guarded || guardAt(in.Block()),
+					"the file is truncated to the size of the mapped region without a test that it is shorter than that: opening an existing storage with a smaller region cuts the file, everything behind the region - the headers and blocks of the later segments - is lost")
+				return
+			}
+			if cal := ir.StaticCallee(call); cal != nil && cal.Pkg == open.Pkg && len(cal.Blocks) > 0 && cal != open {
+				visit(cal, guarded || guardAt(in.Block()), depth+1)
+			}
+		})
+	}
+	visit(open, false, 0)
+	if n == 0 {
+		c.Decide(rule, open, "Truncate on the open path only extends", nil, true, "")
+	}
+}
+
 func runC17(c *Ctx) {
+	c.openNeverShrinks("C17.R10")
 	blocks := c.P.LookupType("container/bytes", "Blocks")
 	if blocks == nil {
 		c.Fatalf("role Blocks type not found")
@@ -95,6 +147,30 @@ func runC17(c *Ctx) {
 			}
 			if found {
 				cands = appendUniq(cands, f)
+			}
+		}
+		if len(cands) > 1 {
+			// the hint is the one the allocation scan steps through (f = f + 1)
+			var stepped []*types.Var
+			for _, f := range cands {
+				found := false
+				for _, fn := range arrangeGroup {
+					ir.Instrs(fn, func(in ssa.Instruction) {
+						if _, val, ok := storeToField(in, f); ok {
+							if bo, isBo := ir.Resolve(val).(*ssa.BinOp); isBo && bo.Op == token.ADD {
+								if _, isF := loadOfField(bo.X, f); isF {
+									found = true
+								}
+							}
+						}
+					})
+				}
+				if found {
+					stepped = append(stepped, f)
+				}
+			}
+			if len(stepped) == 1 {
+				cands = stepped
 			}
 		}
 		if len(cands) != 1 {
@@ -648,6 +724,75 @@ func runC17(c *Ctx) {
 		})
 	}
 	c.R.Floor("C17.R6", 1)
+
+	// R11 the scan leaves the hint on a header: the hint is stepped byte by byte through a header block; when the scan of
+	// that header ends without a free bit the hint stands one past the header - on the first data block of the segment -
+	// and has to be re-aligned to a header start (a multiple of the segment stride) before the allocator looks at the
+	// next header or gives up. Otherwise the next call reads user data as a header.
+	{
+		n := 0
+		for _, fn := range pkgFns {
+			if !xcInGroup(arrangeGroup, fn) {
+				continue
+			}
+			fn := fn
+			isRealign := func(x ssa.Instruction) bool {
+				_, val, ok := storeToField(x, hint)
+				if !ok {
+					return false
+				}
+				if k, isC := ir.ConstInt(val); isC && k == 0 {
+					return true
+				}
+				for _, o := range ir.Origins(val) {
+					if bo, isBo := o.(*ssa.BinOp); isBo && bo.Op == token.MUL {
+						return true
+					}
+				}
+				return false
+			}
+			isStep := func(x ssa.Instruction) bool {
+				_, val, ok := storeToField(x, hint)
+				if !ok {
+					return false
+				}
+				bo, isBo := ir.Resolve(val).(*ssa.BinOp)
+				if !isBo || bo.Op != token.ADD {
+					return false
+				}
+				_, isHint := loadOfField(bo.X, hint)
+				k, isC := ir.ConstInt(bo.Y)
+				return isHint && isC && k == 1
+			}
+			giveUpOrNext := func(x ssa.Instruction) bool {
+				if ret, ok := x.(*ssa.Return); ok {
+					idx := ir.ErrResultIndex(fn)
+					if idx >= 0 {
+						if g := globalOf(ir.ResultValue(ret, idx)); g != nil && g.Name() == "ErrExhausted" {
+							return true
+						}
+					}
+					return false
+				}
+				if call, ok := x.(*ssa.Call); ok && call.Call.IsInvoke() && call.Call.Method.Name() == "Buffer" {
+					return true
+				}
+				return false
+			}
+			ir.Instrs(fn, func(in ssa.Instruction) {
+				if !isStep(in) {
+					return
+				}
+				n++
+				c.NoPath("C17.R11", "stepped hint re-aligned to a header before the next header / ErrExhausted", in,
+					ir.Query{Fn: fn, From: in, Block: isRealign, Target: giveUpOrNext},
+					"after the hint was stepped through a header block it can reach the next header fetch or the ErrExhausted exit without being set back to a header start: it is left on the first data block of a segment, and the next ArrangeBlock treats that block's user data as allocation bits (hands out allocated indices, writes into user data, Available goes negative)")
+			})
+		}
+		if n == 0 {
+			c.Decide("C17.R11", arrange, "stepped hint re-aligned to a header before the next header / ErrExhausted", nil, true, "")
+		}
+	}
 
 	// R7 stride agreement
 	{
